@@ -141,6 +141,9 @@ def random_file(rnd):
         else:
             lines.append(''.join(rnd.choice(JUNK) for _ in range(rnd.randint(0, 10))))
             feats.add('j')
+    if len(lines) >= 2 and rnd.random() < 0.35:      # a verbatim repeat of an earlier line, last (set / override / set back)
+        lines.append(lines[rnd.randrange(len(lines) - 1)])
+        feats.add('repeat')
     style = rnd.choice(['lf', 'lf', 'crlf', 'cr', 'mixed'])
     text = ''.join(l + (layout.EOLS[style] if style != 'mixed' else rnd.choice(['\n', '\r\n', '\r'])) for l in lines)
     if lines and rnd.random() < 0.3:
@@ -295,6 +298,13 @@ def base_inputs(ctx):
         p += [('Do S-DAC-GT Calculations', 'True'), ('S-DAC-GT CAPEX', configs.fmt(configs.dec(ctx.rng, 1000, 1800, 0))),
               ('S-DAC-GT OPEX', configs.fmt(configs.dec(ctx.rng, 40, 70, 0)))]
         syn.append((f'addons+sdacgt{i}', runner.params_to_text(p)))
+    # list-style gradients / thicknesses (ReadParameter re-reads such lines from the raw entry)
+    for i in range(ctx.n(3, 20)):
+        p = configs.synthetic(ctx.rng, nseg=ctx.rng.choice([2, 3, 4]))
+        g = [v for k, v in p if k.startswith('Gradient ')]
+        th = [v for k, v in p if k.startswith('Thickness ')]
+        p = [(k, v) for k, v in p if not k.startswith(('Gradient ', 'Thickness '))] + [('Gradients', ', '.join(g)), ('Thicknesses', ', '.join(th))]
+        syn.append((f'list-style{i}', runner.params_to_text(p)))
     out = []
     for n, t in ex + syn:
         lines = [l for l in canonical(t) if l[1] != 'Print Output to Console'] + [('p', 'Print Output to Console', '0', '')]
@@ -331,6 +341,51 @@ def part_runs(ctx, bases=None, classes=layout.CLASSES):
     ctx.count('whole-runs', bases_with_report={'yes': ok, 'no': len(bases) - ok})
     ctx.sample('whole-runs', {'base': bases[0][0], 'variant_perm': texts[1]})
     return bad
+
+
+# ------------------------------------------------------------------------------------------ (f) list-valued lines, ReadParameter
+def part_list_params(ctx, n):
+    """read_input_file + Parameter.ReadParameter on list-valued lines with trailing '--' comments (commas, digits, more '--'
+    inside): the list the simulator gets must be the fields written before the comment; the Coq model list_fields must
+    name the same fields."""
+    import types
+    from geophires_x.GeoPHIRESUtils import read_input_file
+    from geophires_x.Parameter import ReadParameter, listParameter
+    from geophires_x.Units import LengthUnit, TemperatureGradientUnit, Units
+    rnd, terms, cases = ctx.rng, [], []
+    stub = types.SimpleNamespace(logger=logging.getLogger('c12-list'))
+    for i in range(n):
+        name = rnd.choice(['Gradients', 'Thicknesses'])
+        fields = [str(rnd.choice([1, 1.5, 2, 30, 40.5, 50, 0.5, 99])) for _ in range(rnd.randint(1, 4))]
+        head = name + ''.join(f'{layout.ws(rnd, 0, 2)},{layout.ws(rnd, 0, 2)}{f}' for f in fields)
+        comment = rnd.choice(['', ',', ', -- equal', ', -- per segment, 0.5 km each', ',-- 1, 2, 3', ',\t--note', ', -- a, b -- c, 7',
+                              ',\u2003-- \u6e29\u5ea6, 9'])
+        raw = head + comment
+        d = {}
+        f = Path(ctx.scratch, f'list_{uuid.uuid4().hex[:10]}.txt')
+        f.write_bytes((raw + '\n').encode('utf-8'))
+        read_input_file(d, input_file_name=str(f))
+        f.unlink()
+        p = (listParameter('Gradients', DefaultValue=[0.05], Min=0.0, Max=500.0, UnitType=Units.TEMP_GRADIENT,
+                           PreferredUnits=TemperatureGradientUnit.DEGREESCPERKM, CurrentUnits=TemperatureGradientUnit.DEGREESCPERKM)
+             if name == 'Gradients' else
+             listParameter('Thicknesses', DefaultValue=[100.0], Min=0.01, Max=100.0, UnitType=Units.LENGTH,
+                           PreferredUnits=LengthUnit.KILOMETERS, CurrentUnits=LengthUnit.KILOMETERS))
+        try:
+            ReadParameter(d[name], p, stub)
+            got = [float(x) for x in p.value]
+        except Exception as e:  # noqa
+            got = f'{type(e).__name__}: {e}'[:120]
+        want = [float(x) for x in fields]
+        terms.append(f'fields_eqb (list_fields {ulit(d[name].raw_entry)}) [{"; ".join(ulit(x) for x in fields)}]')
+        cases.append(raw)
+        ctx.count('list-parameter-lines', evaluations=1, nontrivial_keys=[(name, len(fields), comment)] if comment else [])
+        if got != want:
+            ctx.violate('property', 'layout:comment:list-parameter', 'a trailing -- comment changes the value of a list-valued parameter line '
+                        '(or makes it unreadable)', inp={'part': 'list', 'raw': raw, 'name': name, 'fields': fields}, expected=want, observed=got)
+    for i in fw.kernel_bools(ctx, 'listfields', REQ, terms, open_scope='N_scope')[:3]:
+        ctx.violate('corr', 'list-parameter:model-disagrees', 'Coq model list_fields does not give the fields written before the comment',
+                    inp={'part': 'list', 'raw': cases[i]})
 
 
 # ------------------------------------------------------------------------------------------ (e) client overrides, whole runs
@@ -401,6 +456,7 @@ def correspondence(ctx, proofs_ok=True):
     part_model_vs_tokenizer(ctx)
     part_metamorphic(ctx, ctx.n(200, 4000))
     part_client(ctx, ctx.n(120, 3000))
+    part_list_params(ctx, ctx.n(150, 3000))
     bases = base_inputs(ctx)
     part_runs(ctx, bases)
     part_client_runs(ctx, bases[:ctx.n(10, 40)])
@@ -440,6 +496,26 @@ def replay(ctx, data):
         print('file written by the client:', repr(text))
         print('overrides:', dict(params), '-> read back:', {k: got.get(k) for k, _ in params})
         bad = any(got.get(k) != v for k, v in params)
+    elif part == 'list':
+        before = len(ctx.violations)
+        part_list_params(ctx, 0)
+        import types
+        from geophires_x.GeoPHIRESUtils import read_input_file
+        from geophires_x.Parameter import ReadParameter, listParameter
+        from geophires_x.Units import LengthUnit, Units
+        f = Path(ctx.scratch, 'list_replay.txt')
+        f.write_bytes((inp['raw'] + '\n').encode('utf-8'))
+        d = {}
+        read_input_file(d, input_file_name=str(f))
+        p = listParameter(inp['name'], DefaultValue=[1.0], Min=0.0, Max=500.0, UnitType=Units.LENGTH, PreferredUnits=LengthUnit.KILOMETERS,
+                          CurrentUnits=LengthUnit.KILOMETERS)
+        try:
+            ReadParameter(d[inp['name']], p, types.SimpleNamespace(logger=logging.getLogger('c12-list')))
+            got = [float(x) for x in p.value]
+        except Exception as e:  # noqa
+            got = f'{type(e).__name__}: {e}'[:120]
+        print('line:', repr(inp['raw']), '-> list read by ReadParameter:', got, '| written fields:', inp['fields'])
+        bad = got != [float(x) for x in inp['fields']]
     elif part == 'client-runs':
         from concurrent.futures import ProcessPoolExecutor
         ref = runner.run_many(ctx, [inp['plain_text']])[0]
